@@ -102,21 +102,21 @@ class VolumetricFlowDict(DictionaryView): # Wraps a dict of molar flows
         self.cache = cache
     
     def output(self, index, value):
-        TP, V = self.cache.get(index, TP_V)
+        phase = self.phase or self.phase_container.phase
+        TP, V = self.cache.get((index, phase), TP_V)
         if not TP.in_equilibrium(self.TP):
-            phase = self.phase or self.phase_container.phase
             V = self.V[index]
             V = 1000. * (getattr(V, phase) if isinstance(V, PhaseHandle) else V)(*self.TP)
-            self.cache[index] = (self.TP.copy(), V)
+            self.cache[index, phase] = (self.TP.copy(), V)
         return value * V # From mol to m3
 
     def input(self, index, value):
-        TP, V = self.cache.get(index, TP_V)
+        phase = self.phase or self.phase_container.phase
+        TP, V = self.cache.get((index, phase), TP_V)
         if not TP.in_equilibrium(self.TP):
-            phase = self.phase or self.phase_container.phase
             V = self.V[index]
             V = 1000. * (getattr(V, phase) if isinstance(V, PhaseHandle) else V)(*self.TP)
-            self.cache[index] = (self.TP.copy(), V)
+            self.cache[index, phase] = (self.TP.copy(), V)
         return value / V # From m3 to mol
         
     
